@@ -103,6 +103,8 @@ func (s *S) Run(c *scen.Ctx) {
 			s.downFrom = simrt.Elapsed()
 			s.mu.Unlock()
 			old.Stop(true)
+			// the server stays down for a drawn while: calls in that window fail (and are not judged)
+			simrt.Sleep(ms([]int{0, 0, 40, 400, 1500}[simrt.Draw(5, "c11.downtime")]))
 			ns, err := world.StartServer(addr, old.OnRequest)
 			if err == nil {
 				ns.OnAccept = old.OnAccept
@@ -332,6 +334,34 @@ func (s *S) Check(c *scen.Ctx, res *simrt.Result) {
 		}
 		if cl.err != nil {
 			key := "request-never-reached-server"
+			// where did the request go? Find it in the client-to-server streams.
+			for _, pr := range pairs {
+				if pr.Addr != addr {
+					continue
+				}
+				for _, d := range pr.C2S.Dropped {
+					// accepted by the socket after the server had closed: lost. Was the close already
+					// known to the client's receiver goroutine at that moment?
+					if bytes.Contains(d.Data, cl.payload) && pr.S2C.EndSeenStep >= 0 && pr.S2C.EndSeenStep <= d.Step {
+						key = "request-written-between-eof-read-and-close"
+					}
+				}
+				off := bytes.Index(pr.C2S.Bytes(), cl.payload)
+				if off < 0 {
+					continue
+				}
+				for _, wr := range pr.C2S.Writes {
+					if wr.Off <= off && off < wr.Off+wr.N {
+						eofSeen := pr.S2C.EndSeenStep
+						closed := pr.Client.ClosedStep
+						if eofSeen >= 0 && eofSeen <= wr.Step && (pr.Client.ClosedAt < 0 || closed >= wr.Step) {
+							// the sender wrote it after the receiver goroutine had read EOF on this
+							// connection and before that goroutine marked the connection closed
+							key = "request-written-between-eof-read-and-close"
+						}
+					}
+				}
+			}
 			if answered {
 				key = "reply-written-but-call-failed"
 				// the server may have closed the answering connection while the reply was in flight
